@@ -176,7 +176,7 @@ class AggrGen:
         while not meas and op != 'count' and not rids:
             form, gv, gsx, rids = self.grouping(d['ids'])
         hv, hsx, hops = '', '_', []
-        if form != 'none' and len(meas) == 1 and r.random() < 0.35:
+        if rids and len(meas) == 1 and r.random() < 0.35:
             hv, hsx, hops = self.having(meas)
         vtl = 'DS_r <- %s(DS_1%s%s);' % (op, gv, hv)
         sx = '(aggr (spec %s (each %s) %s) (ds DS_1))' % (gsx, op, hsx)
@@ -227,7 +227,7 @@ class AggrGen:
             rm.append((out, 'Integer' if op == 'count' else (rt if op in ('sum', 'min', 'max') else 'Number')))
         form, gv, gsx, rids = self.grouping(d['ids'])
         hv, hsx, hops = '', '_', []
-        if form != 'none' and r.random() < 0.4:
+        if rids and r.random() < 0.4:
             cols = [o for o in operands if o is not None]
             common = cols[0] if cols and len(cols) == len(operands) and all(c == cols[0] for c in cols) else None
             hv, hsx, hops = self.having([common] if common else [], allow_count=True)
@@ -279,6 +279,12 @@ class AggrGen:
                   '(having ((item "__h0" avg (expr (col "Me_1")))) (bin gt (col "__h0") (const (i 0))))) (ds DS_1))')
             return self.finish('having-other-component', fam, d, nr, vtl, sx, ['sum', 'max'], 'by', d['ids'][:1],
                                [('Me_3', 'Number'), ('Me_4', 'Integer')], ['avg'])
+        if k < 0.58:
+            ids = ', '.join(n for n, _ in d['ids'])
+            vtl = 'DS_r <- DS_1[aggr Me_3 := sum(Me_1) group except %s having avg(Me_1) > 0];' % ids
+            sx = ('(aggr (spec (except %s) (list (item "Me_3" sum (expr (col "Me_1")))) '
+                  '(having ((item "__h0" avg (expr (col "Me_1")))) (bin gt (col "__h0") (const (i 0))))) (ds DS_1))' % ' '.join(nsx(n) for n, _ in d['ids']))
+            return self.finish('having-without-result-identifiers', fam, d, nr, vtl, sx, ['sum'], 'except', [], [('Me_3', 'Number')], ['avg'])
         if k < 0.7:
             fam, d, nr = self.dataset(fam='nomeas', nrows=r.choice([0, 1, 3, 9]))
             op = r.choice(['min', 'max'])
@@ -302,6 +308,43 @@ class AggrGen:
         vtl = 'DS_r <- DS_1[aggr Me_3 := %s(Me_1) group all];' % op
         sx = '(aggr (spec none (list (item "Me_3" %s (expr (col "Me_1")))) _) (ds DS_1))' % op
         return self.finish('group-all-clause', fam, d, nr, vtl, sx, [op], 'all', [], [('Me_3', 'Number')], [])
+
+    def group_all_time(self):
+        """`group all time_agg("A")` over a Time_Period identifier (quarters, months, semesters, weeks, years)."""
+        r = self.r
+        periods = ['%d%s' % (y, suf) for y in (2019, 2020, 2021) for suf in
+                   ['Q1', 'Q2', 'Q3', 'Q4', 'M01', 'M03', 'M11', 'M12', 'S1', 'S2', 'A', 'W05', 'W33']]
+        two = r.random() < 0.5
+        ids = [('Id_1', 'Integer'), ('Id_t', 'Time_Period')] + ([('Id_2', 'String')] if two else [])
+        fam = r.choice(['num2', 'num1', 'int1'])
+        meas = list(FAMILIES[fam])
+        want = r.choice([0, 1, 3, 6, 14, 40, 90])
+        keys = set()
+        for _ in range(want * 3):
+            if len(keys) >= want:
+                break
+            keys.add(tuple([r.choice([1, 2, 3]), r.choice(periods)] + ([r.choice(['a', 'b'])] if two else [])))
+        nr = r.choice(NULL_RATES)
+        rows = [tuple(list(k) + [self.value(t, nr, True) for _, t in meas]) for k in keys]
+        r.shuffle(rows)
+        d = {'ids': ids, 'meas': meas, 'rows': rows}
+        if r.random() < 0.5:
+            op = r.choice(NUM_OPS)
+            vtl = 'DS_r <- %s(DS_1 group all time_agg("A"));' % op
+            sx = '(aggr (spec (all "Id_t") (each %s) _) (ds DS_1))' % op
+            rm = [('int_var', 'Integer')] if op == 'count' else [(n, (t if op in ('sum', 'min', 'max') else 'Number')) for n, t in meas]
+            stream = 'group-all-time-standalone'
+        else:
+            op = r.choice(NUM_OPS)
+            vtl = 'DS_r <- DS_1[aggr Me_3 := %s(Me_1), Me_4 := count() group all time_agg("A")];' % op
+            sx = '(aggr (spec (all "Id_t") (list (item "Me_3" %s (expr (col "Me_1"))) (item "Me_4" count any)) _) (ds DS_1))' % op
+            rm = [('Me_3', 'Number'), ('Me_4', 'Integer')]
+            stream = 'group-all-time-clause'
+        c = self.finish(stream, fam, d, nr, vtl, sx, [op] + (['count'] if 'clause' in stream else []), 'all-time', ids, rm, [])
+        # group sizes after the conversion of the time identifier
+        sizes = collections.Counter((row[0], row[1][:4]) + tuple(row[2:len(ids)]) for row in rows)
+        c.update(ngroups=len(sizes), max_group=max(sizes.values()) if sizes else 0)
+        return c
 
     def finish(self, stream, fam, d, nr, vtl, sx, ops, form, rids, rm, hops):
         env = {'DS_1': d}
@@ -425,7 +468,7 @@ def compare(case, model_ans, eng_out, result='DS_r'):
     if set(mk) != set(ek):
         return 'DISAGREE:keys', {'model_only': sorted(map(str, set(mk) - set(ek)))[:6], 'engine_only': sorted(map(str, set(ek) - set(mk)))[:6],
                                  'model_groups': len(mk), 'engine_groups': len(ek)}
-    item_op = dict(zip(meas, case['ops'])) if case['stream'] == 'clause' else {m: case['ops'][-1] for m in meas}
+    item_op = dict(zip(meas, case['ops'])) if ('clause' in case['stream'] and len(case['ops']) == len(meas)) else {m: case['ops'][-1] for m in meas}
     mx = case.get('maxabs', 0.0) or 0.0
     for k in mk:
         for m in meas:
